@@ -123,8 +123,22 @@ func genC17(r *rand.Rand, n int, emit func(string)) {
 			emit(proto.Line("process", M{"ns": ns, "req": proto.Hex(b), "uri": uri, "label": plabel}))
 			continue
 		}
-		switch r.Intn(17) {
+		switch r.Intn(18) {
 		case 0, 1:
+		case 17: // one letter of the suffix in the other case (base64url is case sensitive: another suffix)
+			sb := []byte(suffix)
+			for tries := 0; tries < 100; tries++ {
+				k := r.Intn(len(sb))
+				if c := sb[k]; c >= 'a' && c <= 'z' {
+					sb[k] = c - 32
+					break
+				} else if c >= 'A' && c <= 'Z' {
+					sb[k] = c + 32
+					break
+				}
+			}
+			did = ns + ":" + string(sb) + ":" + initial
+			label = "suffix-letter-case-flipped"
 		case 16: // the suffix segment ends in the true suffix but is longer
 			did = ns + ":" + pick(r, []string{"x", suffix, "Ei", "-"}) + suffix + ":" + initial
 			label = "suffix-of-another-request"
